@@ -24,6 +24,7 @@ func TestVerif_C15_cfg(t *testing.T) {
 			"a grid of 42 responses (media types with parameters, casing, +json/+xml suffixes, charset spellings incl. quoted/empty/duplicate/unknown/utf-8, response Accept-Encoding): which reader "+
 			"autoDecodeResponseBody installs (raw / header-charset decoder / sniffing reader). non-trivial = the program contains a cloning")
 	r := s.Rand()
+	cnt := c15NewCounter(s)
 	alphabet := []c15FamOp{{k: 'D'}, {k: 'E'}, {k: 'L', list: []string{"html"}}, {k: 'L', list: []string{"png", "csv"}}, {k: 'A'}, {k: 'N'}, {k: 'F', custom: 2}}
 	seqs := func(members int) [][]c15FamOp { // all call sequences of length <= 2 over alphabet x members
 		var syms []c15FamOp
@@ -122,10 +123,10 @@ func TestVerif_C15_cfg(t *testing.T) {
 				bad = fmt.Sprintf("response Content-Type %q Accept-Encoding %q: installed %s, must be %s", cell.ct, cell.ae, kinds[k], want)
 			}
 		}
-		s.Count("programs:" + p.tag)
+		cnt.count("programs:" + p.tag)
 		feats := c15ProgFeatures(p.ops, p.use)
 		for _, f := range feats {
-			s.Count(f)
+			cnt.count(f)
 		}
 		human := "settings program [" + c15ProgHuman(p.ops, p.use) + "] on the media grid"
 		if !ok {
@@ -133,5 +134,7 @@ func TestVerif_C15_cfg(t *testing.T) {
 		}
 		s.Case("c15cfg "+c15ProgStringNamed(p.ops)+" "+fmt.Sprint(p.use)+" "+grid, strings.Join(kinds, ","), ok, "", len(fam) > 1, human)
 	}
+	cnt.must(t, "programs:shape", "programs:random", "prog:request-by-a-clone", "prog:cloned-while-switched-off", "prog:cloned-with-filter-set",
+		"prog:cloned-off-with-filter-then-switched-on", "prog:several-clones")
 	s.Finish()
 }
